@@ -276,7 +276,65 @@ def runC17 (t : Tier) : Emit Unit := do
     emit "C17" (muxCase { period := 40, ops := ops } true "version-wrap")
   runHistories "C17" t true (if t.quick then 10 else 100) 50 false
 
+/-! ### one MuxerData / adaptation field object reused across calls
+
+The caller keeps one `*PacketAdaptationField` and passes it to several `WriteData` calls. The muxer writes stuffing
+into that object while it packetises; whatever it leaves behind is what the next call receives. Specification side:
+every call is an ordinary `.data` with the adaptation field the caller set up (no stuffing). Model side: the next call
+receives the object as the model's `writeData` left it. -/
+
+def runModelReuse (period : Nat) (pre : List MuxOp) (ds : List MuxerData) : List String × Bytes :=
+  let (outs0, m0, b0) := pre.foldl (fun (acc : List String × Mux × Bytes) op =>
+    let (s, m') := modelStep acc.2.1 op
+    let w := match op with
+      | .tables => (acc.2.1.writeTablesCall).1.chunks.flatten
+      | _ => []
+    (acc.1 ++ [s], m', acc.2.2 ++ w)) ([], newMux period, [])
+  let (outs, _, bytes, _) := ds.foldl (fun (acc : List String × Mux × Bytes × Option (Option PacketAdaptationField)) d =>
+    let d1 : MuxerData := match acc.2.2.2 with | some af => { d with adaptationField := af } | none => d
+    let (o, m', d') := acc.2.1.writeData d1
+    let s := if o.panic then "panic" else showCall "data" o.n o.err o.chunks.flatten
+    (acc.1 ++ [s], m', acc.2.2.1 ++ o.chunks.flatten, some d'.adaptationField)) (outs0, m0, b0, none)
+  (outs, bytes)
+
+def reuseCases (period : Nat) (pre : List MuxOp) (ds : List MuxerData) (tag : String) : List Case :=
+  let h : History := { period := period, ops := pre ++ ds.map .data }
+  let (mo, mbytes) := runModelReuse period pre ds
+  let (so, _, del) := runSpec h
+  let opsJson := jarr (pre.map opJson ++ ds.zipIdx.map fun (d, i) =>
+    jobj ([("data", d.toJson)] ++ (if i > 0 then [("reuse", "true")] else [])))
+  let pids := ((del.map (·.pid)).eraseDups.toArray.qsort (· < ·)).toList
+  let spec := showPerPID (pids.map fun pid => (pid, del.filter (·.pid == pid))) 0 "eof"
+  let dc := demuxCase mbytes { view := .perpid } none none "x"
+  [{ op := "mux", args := [("period", jnat period), ("ops", opsJson), ("view", jstr "seq")],
+     model := "|".intercalate mo, spec := some ("|".intercalate so), tag := tag },
+   { op := "mux", args := [("period", jnat period), ("ops", opsJson), ("view", jstr "demux")],
+     model := dc.model, spec := some spec, tag := tag ++ "-demux" }]
+
+/-- several units on one PID with the same adaptation field object; payload lengths chosen so that some first packets
+need stuffing (short units) and some do not -/
+def genReuse : Gen (Nat × List MuxOp × List MuxerData) := do
+  let period ← randRange 1 50
+  let st ← pick streamTypes
+  let pre : List MuxOp := [.add { elementaryPID := 0x100, elementaryStreamDescriptors := [], streamType := st }, .setPCR 0x100]
+  let af ← genCallerAF 60
+  let n ← randRange 2 5
+  let ds ← genList n (do
+    let d ← genData 0x100 false
+    let short ← chance 1 2
+    let len ← (if short then randRange 1 120 else randRange 150 600)
+    let payload ← randBytes len
+    pure { d with adaptationField := some af, pes := { d.pes with data := payload } })
+  return (period, pre, ds)
+
+def runReuse (prop : String) (t : Tier) (n : Nat) : Emit Unit := do
+  for _ in [0:n * t.scale] do
+    let (period, pre, ds) ← liftGen genReuse
+    for c in reuseCases period pre ds "af-object-reused" do
+      emit prop c
+
 def runC01 (t : Tier) : Emit Unit := do
+  runReuse "C01" t 8
   for _ in [0:(if t.quick then 25 else 250)] do
     let period ← liftGen genPeriod
     let h ← liftGen (genHistory 25 period true)
